@@ -18,7 +18,8 @@ RULE = ("TLC checks DeployOnlyToLiveFull / StopsUsingDeadAssembly / RedeployFrom
         "followed by a model-free epilogue that demands Running + a new published checkpoint; fault skeletons of the behaviours "
         "are executed on real workers where a dead system is a violation")
 
-DEVS = dict(Dev_PendingNotCleared=False, Dev_OpKeepsCheckpoint=False, Dev_SplitterAppended=False)
+DEVS = dict(Dev_PendingNotCleared=False, Dev_OpKeepsCheckpoint=False, Dev_SplitterAppended=False,
+            Dev_TickerNotRecreated=False, Dev_StaleCheckpointSurvivesRedeploy=False)
 TLC_WORKERS = 8   # the machine is shared
 FAULTS = '@{"Kill", "Deregister"}'
 
@@ -43,8 +44,8 @@ def tlc_liveness(c, cfgs, timeout):
         c.add_tlc(r, "Membership liveness (RunsAgain, CheckpointsResume) W=%d N=%d faults=%d" % (k["W"], k["N"], k["MaxEv"]))
         # the same check must FAIL for each named leftover: the liveness property is not vacuous
     k = cfgs[0]
-    devs = ("Dev_PendingNotCleared", "Dev_OpKeepsCheckpoint", "Dev_SplitterAppended")
-    for d in (devs if c.tier != "quick" else devs[c.seed % 3:c.seed % 3 + 1]):
+    devs = ("Dev_PendingNotCleared", "Dev_OpKeepsCheckpoint", "Dev_SplitterAppended", "Dev_TickerNotRecreated", "Dev_StaleCheckpointSurvivesRedeploy")
+    for d in (devs if c.tier != "quick" else devs[c.seed % 5:c.seed % 5 + 1]):
         kk = dict(k)
         kk[d] = True
         r = vlib.run_tlc("Membership", cfg=dict(spec="LiveSpec", constants=kk, properties=["CheckpointsResume"], constraint="LiveConstraint"),
@@ -57,7 +58,7 @@ def tlc_liveness(c, cfgs, timeout):
 def replay_fake(c, k, behs, label):
     if not behs:
         raise vlib.MachineryError("no behaviours generated for " + label)
-    payload = dict(property="C15", seed=c.seed, config=dict(k, mode="fake", Chunk=40), behaviours=behs)
+    payload = dict(property="C15", seed=c.seed, config=dict(k, mode="fake", Chunk=40, StopAfterViolations=3), behaviours=behs)
     res = vlib.run_harness("membership", payload)
     c.add_harness(res, payload, label)
     return res
@@ -72,11 +73,23 @@ def fake_arm(c, gens, num):
     return allb
 
 
+def enough(c):
+    """a broken tree is decided: further arms would only cost time (every arm is bounded, but the bounds add up)"""
+    if len(c.violations) >= 3:
+        c.extra.setdefault("arms_skipped_after_violations", 0)
+        c.extra["arms_skipped_after_violations"] += 1
+        return True
+    return False
+
+
 def adversarial(c, combos):
     """Shortest schedules (breadth-first, with the VIEW) on which the design with ONE named leftover of the old assembly
     gets stuck; the real code must pass them: replayed leniently (the deviating model's predictions are left as soon as
     they differ) and judged by the model-free epilogue."""
+    stale = []
     for (W, N, ev, boot, dev, faults) in combos:
+        if enough(c):
+            break
         k = consts(W, N, ev, boot=boot, flaky=2)
         k[dev] = True
         k["Focus"] = True
@@ -85,11 +98,14 @@ def adversarial(c, combos):
         c.add_tlc(r, "Membership shortest counterexample with %s W=%d faults=%s" % (dev, W, faults[1:]), must_hold=False)
         if r.violated != "CexStop" or not r.behaviours:
             raise vlib.MachineryError("no counterexample with %s (W=%d): %s %s" % (dev, W, r.violated, r.error))
+        if dev == "Dev_StaleCheckpointSurvivesRedeploy" and W >= 2:
+            stale += [(W, b) for b in r.behaviours]
         behs = [strip_dev(b) for b in r.behaviours]
         kk = consts(W, N, ev, boot=boot, flaky=2)
-        payload = dict(property="C15", seed=c.seed, config=dict(kk, mode="fake", Chunk=40, Lenient=True), behaviours=behs)
+        payload = dict(property="C15", seed=c.seed, config=dict(kk, mode="fake", Chunk=40, Lenient=True, StopAfterViolations=3), behaviours=behs)
         res = vlib.run_harness("membership", payload)
         c.add_harness(res, payload, "fake nodes, schedule that wedges the design with %s (W=%d, %s)" % (dev, W, faults[1:]))
+    return stale
 
 
 def strip_dev(beh):
@@ -178,8 +194,57 @@ HAND = {
 }
 
 
-def real_arm(c, allb, per_w, variants):
+def late_ack(beh):
+    """(survivor operator, lost node, standby present) of a behaviour in which a surviving operator's acknowledgement of a
+    checkpoint arrives after the new start has discarded it, while that operator's Deploy is outstanding; None otherwise"""
+    for i, s in enumerate(beh):
+        if s["a"] == "OpBarrier" and s.get("all") and not s["ack"]["ok"] and s.get("redeploying"):
+            faults = [f for f in beh[:i] if f["a"] in ("Kill", "Deregister") and f["ctx"]["member"]]
+            if faults:
+                f = faults[-1]
+                return s["o"], (f["kind"], f["i"]), f["ctx"]["standby"] > 0
+    return None
+
+
+def late_ack_scenarios(W, stale, variants):
+    """witness schedules of Dev_StaleCheckpointSurvivesRedeploy on real workers: survivor S's acknowledgement is held in the
+    harness-owned proto.Job adapter, worker X is lost (graceful stop / kill with failing calls / kill with hanging calls; standby
+    or a fresh worker), the job re-assembles and its Deploy reaches S (still busy), the acknowledgement is released - the
+    job refuses it - and S is redeployed. A worker is an operator AND a runner: X is the lost node's worker unless that is S's."""
+    out, seen, survivors = [], set(), []
+    for w, b in stale:
+        la = late_ack(b)
+        if w != W or la is None:
+            continue
+        if la[0] not in survivors:
+            survivors.append(la[0])
+        if variants < 3 and survivors.index(la[0]) > 0:
+            continue   # quick: one survivor position
+        S = la[0] - 1
+        X = la[1][1] - 1
+        if X == S or X >= W:
+            X = (S + 1) % W
+        for n, standby in enumerate((1, 0) if la[2] else (0, 1)):
+            for kind in ("kill-hang", "stop", "kill-fail")[:3 if n == 0 else 1]:
+                if (S, X, standby, kind) in seen:
+                    continue
+                seen.add((S, X, standby, kind))
+                fault = dict(a="stop", w=X, nowait=True) if kind == "stop" else dict(a="kill", w=X, mode=kind[5:])
+                # X's barrier reaches S last (the refusal then goes back to the worker that is lost anyway, S stays a survivor)
+                bar, ack = "barrier:%d->%d" % (X, S), "opack:%d" % S
+                sc = [dict(a="boot", workers=W + standby), dict(a="checkpoint"), dict(a="hold", key=bar), dict(a="hold", key=ack),
+                      dict(a="tick", delivered="%d->%d" % (S, S), **{"await": bar}), dict(a="unhold", key=bar, **{"await": ack}), fault,
+                      dict(a="awaitdeploy", w=S), dict(a="release")]
+                out.append(sc)
+                if kind == "kill-hang" and n == 0:
+                    out.append([st for st in sc if st["a"] != "checkpoint"])   # the same before any checkpoint has completed: nothing to restore from
+    return out
+
+
+def real_arm(c, allb, per_w, variants, stale=()):
     for W in (1, 2):
+        if enough(c):
+            break
         sks = []
         for k, behs in allb:
             if k["W"] == W:
@@ -204,9 +269,20 @@ def real_arm(c, allb, per_w, variants):
                 behs.append(scenario(W, s, c.seed + i + v * 3))
         for name in sorted(HAND):
             behs.append(HAND[name](W))
-        payload = dict(property="C15", seed=c.seed, config=dict(W=W, mode="real", Chunk=1, ChildTimeoutS=400), behaviours=behs)
+        late = late_ack_scenarios(W, stale, 2 if c.tier == "quick" else 3) if W >= 2 else []
+        if W >= 2 and not late:
+            c.errors.append("real workers W=%d: no late-acknowledgement schedule was derived from the Dev_StaleCheckpointSurvivesRedeploy witnesses" % W)
+        behs = late + behs     # first: they are the cheapest way to a verdict on a tree with that defect
+        # bounded: a scenario on a healthy tree takes ~1 s; a child is killed after 150 s; after 3 violations the rest is skipped
+        payload = dict(property="C15", seed=c.seed, config=dict(W=W, mode="real", Chunk=1, ChildTimeoutS=150, StopAfterViolations=3,
+                                                                BudgetS=600 if c.tier == "quick" else 3000), behaviours=behs)
         res = vlib.run_harness("membership", payload, timeout=3000)
-        c.add_harness(res, payload, "real workers W=%d: %d fault skeletons from TLC behaviours + %d fixed" % (W, len(chosen), len(HAND)))
+        c.add_harness(res, payload, "real workers W=%d: %d late-acknowledgement schedules + %d fault skeletons from TLC behaviours + %d fixed" % (W, len(late), len(chosen), len(HAND)))
+        cn = res.get("counters", {})
+        if cn.get("skipped_budget"):
+            c.errors.append("real workers W=%d: time budget exhausted, %d scenarios not run" % (W, cn["skipped_budget"]))
+        if late and not res.get("violations") and cn.get("late_ack_staged", 0) == 0:
+            c.errors.append("real workers W=%d: none of the %d late-acknowledgement schedules could be staged" % (W, len(late)))
         c.extra.setdefault("skeletons", {})["W%d" % W] = [list(map(list, s)) for s in chosen]
         if res.get("counters", {}).get("staging_skipped", 0) * 2 > len(behs):
             c.errors.append("real workers W=%d: %d of %d scenarios could not stage their fault" % (W, res["counters"]["staging_skipped"], len(behs)))
@@ -244,20 +320,25 @@ def run(c):
     c.exhaustive = True
     allb = fake_arm(c, gens, num)
     DEV = ("Dev_PendingNotCleared", "Dev_OpKeepsCheckpoint", "Dev_SplitterAppended")
+    TICK, STALE = "Dev_TickerNotRecreated", "Dev_StaleCheckpointSurvivesRedeploy"
     K, D = '@{"Kill"}', '@{"Deregister"}'
-    combos = [(1, 2, 6, 1, d, f) for d in DEV for f in (K, D)]
+    combos = [(1, 2, 6, 1, d, f) for d in DEV + (TICK,) for f in (K, D)]
+    # the late-acknowledgement schedules for the real workers come from the W=2 witnesses of STALE (3 events suffice: tick, loss, registration)
+    combos += [(2, 3, 3, 2, STALE, D), (2, 3, 3, 2, TICK, D)]
     if quick:
         combos.append((2, 3, 7, 2, DEV[0], D))
     else:
-        combos += [(2, 3, 7, 2, d, f) for d in DEV for f in (K, D)] + [(1, 3, 6, 1, d, K) for d in DEV]
-    adversarial(c, combos)
+        combos += [(2, 3, 7, 2, d, f) for d in DEV + (TICK,) for f in (K, D)] + [(1, 3, 6, 1, d, K) for d in DEV] + [(2, 3, 7, 2, STALE, D), (2, 3, 7, 2, STALE, K)]
+    stale = adversarial(c, combos)
     selftest(c, allb[0][0], allb[0][1])
-    real_arm(c, allb, per_w, variants)
+    real_arm(c, allb, per_w, variants, stale)
     c.assumptions += [
         "time is counted in heartbeat-deadline periods (the frozen clock advances 3 s per step, deadline 5 s); expiry is noticed at the next membership event, as in the code",
         "a barrier / event of an earlier deployment is not delivered to a node after it has been redeployed (HandleEvent has no deployment epoch; exactly-once across redeploys is C01's subject)",
         "a Deploy call to a dead node fails (the production HTTP client retries some network errors for ever: the job would then stay in Starting; RPC layer not covered)",
-        "FrozenClock tickers cannot be stopped: ticks are only issued while the model / the job's own log says Running",
+        "time is driven by the replayer: the harness-owned clocks.Clock hands out tickers that honour Stop like the production clock (assembled with "
+        "reflect+unsafe, clocks.Ticker has no constructor); one tick = the passing of one checkpoint interval; a retry requested through "
+        "EveryContext.RetryIn is played by the next tick",
         "arm (b) restarts workers like an orchestrator would (a fresh worker whenever fewer than WorkerCount are alive)",
     ]
 
@@ -265,5 +346,9 @@ def run(c):
 def replay(c, path):
     payload = json.load(open(path))
     payload.pop("violation", None)
+    if payload.get("config", {}).get("mode") == "real":
+        # goroutines of real workers are scheduled by the Go runtime: a scenario is repeated (the first violation ends the replay)
+        payload["behaviours"] = payload["behaviours"][:1] * 6
+        payload["config"].update(StopAfterViolations=1, BudgetS=600)
     res = vlib.run_harness("membership", payload, timeout=3000)
     c.add_harness(res, payload, "replay " + path)
